@@ -1,5 +1,5 @@
 (* C07 — lemmas, part 3: the walker's pre-order item list of a legal tree is well placed; items <-> tree_at. *)
-From Coq Require Import List ZArith Bool Lia.
+From Coq Require Import List ZArith Bool Lia FinFun.
 Import ListNotations.
 From GU Require Import C07.GuardTypes C07.Gen C07.Model C07.Proofs C07.Proofs2.
 Local Open Scope Z_scope.
@@ -185,4 +185,39 @@ Proof.
   destruct p as [|c r]; [discriminate|]. rewrite tree_at_node_at. destruct (find_kid t c) as [n|] eqn:E; [|discriminate].
   intros H. apply find_kid_in in E. apply in_flat_map. exists (c, n). split; [exact E|]. simpl.
   change (c :: r) with ([c] ++ r). now apply node_is_item.
+Qed.
+
+(* ---------------------------------------------------------------- the round trip, for every legal tree *)
+Lemma sec_of_restored s : sec (s * ns) = s.
+Proof. unfold sec. apply Z.div_mul. unfold ns. lia. Qed.
+
+Lemma info_kind_inv i : info_of_kind (kind_of_info i) = i.
+Proof. destruct i; reflexivity. Qed.
+
+Lemma roundtrip_l D m0 t : Forall legal D -> D <> [] -> dest_ready m0 D -> legal_tree t ->
+  exists s, unzip None D m0 (zip_entries t) = (s, UOk) /\
+    (forall p, p <> [] -> info_of_fnode (lookup (u_fs s) (D ++ p)) = tree_at t p) /\
+    u_list s = map (app D) (map fst (tree_items t)) /\
+    NoDup (u_list s) /\
+    (forall p, In p (map fst (tree_items t)) <-> tree_at t p <> None).
+Proof.
+  intros HD HDne HR HL. pose proof (tree_items_wf t HL) as HW.
+  destruct (unzip_items_faithful D m0 (tree_items t) HD HDne HR HW) as (s & E & Hlist & Hf & Hd & Hn).
+  assert (Hdom : forall p, In p (map fst (tree_items t)) <-> tree_at t p <> None).
+  { intros p. split.
+    - intros Hin. apply in_map_iff in Hin as ([q k] & Hq & Hin). simpl in Hq. subst q.
+      rewrite (tree_item_is_node t p k HL Hin). discriminate.
+    - intros Hne. destruct (tree_at t p) as [i|] eqn:Ei; [|contradiction]. apply tree_node_is_item in Ei.
+      change p with (fst (p, kind_of_info i)). now apply in_map. }
+  exists s. rewrite <- zip_entries_items in E. split; [exact E|]. split; [|split; [|split]].
+  - intros p Hp. destruct (tree_at t p) as [i|] eqn:Ei.
+    + apply tree_node_is_item in Ei. destruct i as [c sc|sc]; simpl in Ei.
+      * rewrite (Hf _ _ _ Ei). simpl. now rewrite sec_of_restored.
+      * rewrite (Hd _ _ Ei). simpl. now rewrite sec_of_restored.
+    + rewrite Hn; [reflexivity|exact Hp|]. intros Hin. apply Hdom in Hin. contradiction.
+  - rewrite Hlist. now rewrite map_map.
+  - rewrite Hlist. rewrite <- (map_map fst (app D)).
+    apply FinFun.Injective_map_NoDup; [intros a b Hab; now apply app_inv_head in Hab|].
+    apply (wf_seq_nodup (tree_items t) []); [constructor|exact HW].
+  - exact Hdom.
 Qed.
